@@ -55,12 +55,15 @@ def gen_history(run, i):
     rng = run.rng(i)
     calls = []
     style = rng.choice(['same-object', 'fresh-objects', 'cli', 'mixed'])
-    names = ['out_a.tif', 'out_b.tif']
+    # (i % 6 == 4: names with characters that mean something to glob / fnmatch; a file protects exactly its own name)
+    names = ['out_a.tif', 'out_b.tif'] if i % 6 != 4 else ['scene[1].tif', 'scene[2].tif']
+    a, b = names
+    pa = pathlib.Path(a).stem + '_PARAM.tif'
     for _ in range(rng.randint(1, 4)):
         calls.append(dict(cfg=rng.randrange(3), mbm=rng.randrange(2), out=rng.choice(names), param=rng.random() < 0.5,
                           overwrite=rng.random() < 0.4, as_str=rng.random() < 0.5,
                           via='cli' if style == 'cli' or (style == 'mixed' and rng.random() < 0.3) else 'api'))
-    pre = rng.choice([[], ['out_a.tif'], ['out_a_PARAM.tif'], ['out_a.tif', 'out_a_PARAM.tif'], ['out_b.tif']])
+    pre = rng.choice([[], [a], [pa], [a, pa], [b]])
     return dict(i=i, style=style, calls=calls, pre=pre, pre_kind=rng.choice(['garbage', 'old-run']))
 
 
